@@ -180,6 +180,7 @@ fn base_case(prop: &str, seed: u64, run: u64, opts: &Options, mode: Mode, files:
         hardlinks: vec![],
         symlinks: vec![],
         bogus_paths: vec![],
+        bogus_first: false,
         list_via_pipe: false,
     }
 }
@@ -586,6 +587,7 @@ pub fn generate_c16(seed: u64, run: u64, corpus: &Corpus, tier: Tier, stats: &mu
             }
             if rng.chance(1, 10) {
                 c.bogus_paths.push(gen_bogus_path(&mut rng));
+                c.bogus_first = rng.chance(1, 2);
             }
             *stats.by_mode.entry(format!("batch_path_form:{}", form.name())).or_insert(0) += 1;
             cases.push(c);
@@ -1293,6 +1295,7 @@ persistent: false,
     }
     if rng.chance(1, 12) {
         case.bogus_paths.push(gen_bogus_path(&mut rng));
+        case.bogus_first = rng.chance(1, 2);
     }
     if rng.chance(1, 30) {
         case.extra_args = vec!["--cursor=0,5".into()];
